@@ -130,17 +130,27 @@ GEOMS = {
 }
 
 
+def _symtable(t):
+    """the neighbour table as an array that accepts symbolic row indices (a plain ndarray does not)"""
+    return arrays.wrap(np.asarray(t)) if type(t) is np.ndarray else t
+
+
 def case_cutout(ctx, geom, ns, length, offset, nwf, add_nan):
     import ibldsp.waveform_extraction as we
     import ibldsp.utils as u
     xy, radius = GEOMS[geom]
     nc = xy.shape[0]
-    nbr = u.make_channel_index(xy, radius=radius)
+    nbr = _symtable(u.make_channel_index(xy, radius=radius))
     # neighbour table: ascending, within the radius, padded with nc
     for c in range(nc):
         want = [j for j in range(nc) if np.hypot(*(xy[j] - xy[c])) <= radius]
         row = [int(v) for v in nbr[c]]
         ctx.oblige("neighbours_are_the_sites_within_radius_ascending_then_padding", row == want + [nc] * (nbr.shape[1] - len(want)), detail={"channel": c, "row": row, "want": want})
+    # an explicit pad value only changes the pads
+    for pv in (-1, nc + 7):
+        t = ctx.call("make_channel_index_pad", u.make_channel_index, xy, radius=radius, pad_val=pv)
+        exp = np.where(np.asarray(nbr.view(np.ndarray) if isinstance(nbr, np.ndarray) else nbr, dtype=int) == nc, pv, np.asarray(nbr.view(np.ndarray) if isinstance(nbr, np.ndarray) else nbr, dtype=int))
+        ctx.oblige("explicit_pad_value_only_replaces_the_pads", np.shape(t) == np.shape(exp) and bool(np.array_equal(np.asarray(t, dtype=int), exp)), detail={"pad_val": pv, "got": np.asarray(t).tolist()})
     # the table does not depend on how the coordinates are stored (float64 / float32 / integer micrometres of a full probe)
     import neuropixel
     h = neuropixel.trace_header(version=1)
@@ -293,7 +303,7 @@ def case_chunk(ctx, i_chunk, length, offset):
     wf_flat = FakeDF({"sample": arrays.mk([smp], tag=np.dtype(np.int64)), "peak_channel": arrays.mk([pk], tag=np.dtype(np.int64)), "waveform_index": arrays.mk([widx], tag=np.dtype(np.int64))})
     xy = np.array([[43.0, 20], [11, 20], [59, 40]])
     import ibldsp.utils as u
-    nbr = u.make_channel_index(xy, radius=45.0)
+    nbr = _symtable(u.make_channel_index(xy, radius=45.0))
     mm = _Mmap()
     sr0 = spikeglx.Reader(FakePath("/d/x.imec0.ap.bin"))
     geom = {k: v for k, v in sr0.geometry.items()}
@@ -377,7 +387,7 @@ def case_cbin_outputs(ctx, n, max_wf, chunk, length, offset):
     s2v = sr0.sample2volts
     # a neighbourhood radius that leaves NaN padding: 3 sites, 2 neighbours at most for the outer ones
     saved_mci = we.make_channel_index
-    we.make_channel_index = lambda g, **k: u.make_channel_index(g, radius=35.0)
+    we.make_channel_index = lambda g, **k: _symtable(u.make_channel_index(g, radius=35.0))
     try:
         ctx.call("extract_wfs_cbin", we.extract_wfs_cbin, FakePath("/d/x.imec0.ap.bin"), FakePath("/out"), arrays.mk(list(samples), tag=np.dtype(np.int64)),
                  arrays.mk(list(clusters), tag=np.dtype(np.int64)), arrays.mk(list(chans), tag=np.dtype(np.int64)), h=geom, max_wf=max_wf, trough_offset=offset,
@@ -500,6 +510,21 @@ def twins(tier):
 
 def replay(case, params, cex):
     m = cex["model"]
+    if case.startswith("cutout") and cex["obligation"].startswith("explicit_pad_value"):
+        g = params["geom"]
+        return f"""
+import ibldsp.utils as u
+xy = np.array({GEOMS[g][0].tolist()}); radius = {GEOMS[g][1]}; nc = xy.shape[0]
+ref = u.make_channel_index(xy, radius=radius)
+bad = []
+for pv in (-1, nc + 7):
+    t = u.make_channel_index(xy, radius=radius, pad_val=pv)
+    exp = np.where(ref == nc, pv, ref)
+    if t.shape != exp.shape or not np.array_equal(t, exp): bad.append((pv, t.tolist(), exp.tolist()))
+print(bad)
+if bad: reproduced(f'make_channel_index with an explicit pad value does not keep the neighbours first / ascending: {{bad[:1]}}')
+not_reproduced()
+"""
     if case.startswith("cutout") and cex["obligation"].startswith(("neighbour_table_does_not_depend", "make_channel_index_")):
         return """
 import ibldsp.utils as u, neuropixel
